@@ -14,12 +14,18 @@ variable {K K' V : Type}
 
 /-! ### The representation-keyed structure -/
 
+/-- `entry.key.SameAs(key)` for an entry's key slot (a removed entry never sits in a chain). -/
+def keyEqv (eqv : K → K → Bool) (ko : Option K) (k : K) : Bool :=
+  match ko with
+  | some k' => eqv k' k
+  | none => false
+
 /-- The loop of `lookup` (map.go:31) with the dynamic `entry.key.SameAs(key)`. -/
 def walkE (eqv : K → K → Bool) (heap : Nat → Entry K V) (k : K) : Nat → Option Nat → Option Nat → Option Nat × Option Nat
   | 0, _, hp => (none, hp)
   | _ + 1, none, hp => (none, hp)
   | f + 1, some i, hp =>
-    if (match (heap i).key with | some k' => eqv k' k | none => false) then (some i, hp)
+    if keyEqv eqv (heap i).key k then (some i, hp)
     else walkE eqv heap k f (heap i).hNext (some i)
 
 variable (eqv : K → K → Bool) (norm : K → K) (hash : K → Nat)
